@@ -1,9 +1,55 @@
 PROPERTY = "C03"
 LEVEL = "proof"
-FUNCTIONS = ["get_conseq_entry_count"]
-TRUSTED = []
-ASSUMPTIONS = []
-EXPLANATION = ""
+FUNCTIONS = [
+    "get_conseq_entry_count", "sqfs_dir_writer_add_entry", "sqfs_dir_writer_end",
+    "add_header", "sqfs_dir_writer_create_inode", "add_export_table_entry",
+    "sqfs_dir_writer_write_export_table",
+    "sqfs_meta_writer_flush", "write_block (meta_writer.c)", "sqfs_meta_writer_append",
+    "sqfs_inode_make_basic", "sqfs_inode_make_extended", "sqfs_inode_set_file_size",
+    "sqfs_inode_set_file_block_start", "sqfs_inode_set_xattr_index",
+    "sqfs_inode_get_xattr_index",
+    "sqfs_id_table_id_to_index", "sqfs_id_table_write",
+    "sqfs_frag_table_write", "sqfs_write_table",
+    "gzip_do_block", "find_strategy", "xz_comp_block", "compress (xz.c)",
+    "lz4_comp_block", "zstd_comp_block", "lzma_comp_block", "try_compress (lzma.c)",
+    "alloc_location_table", "write_id_table (xattr_writer_flush.c)",
+    "padd_sqfs",
+    "fstree_post_process", "alloc_inode_num_dfs", "map_inodes_dfs",
+    "reorder_hard_links", "file_list_dfs",
+]
+TRUSTED = [
+    "codec libraries (harness/C03/comp.c): deflate/deflateReset/deflateParams, lzma_stream_buffer_encode, lzma_alone_encoder/lzma_code, LZ4_compress_default/_HC, ZSTD_compressCCtx never produce more than the given capacity, return documented status codes only; a finished .lzma stream has at least its 13 byte header",
+    "compressor do_block as seen by the meta writer (c03_env.h): r < 0, or 0 <= r <= min(size, outsize) - the r <= size clause is what comp.c proves for the in-tree back ends (fails for lz4 on the unchanged tree, see proposed_known_findings.json)",
+    "sqfs_file_t contract (c03_env.h, write_table.c, finish_pad.c): get_size returns the tracked size; write_at fails or sets size = max(size, off + n)",
+    "meta writer as seen by sqfs_write_table / write_id_table / sqfs_dir_writer_end: append accepts the bytes or fails; a block is emitted (file grows by 3..8194 bytes, position moves to the next block) exactly when 8192 bytes are buffered; flush emits the rest",
+    "sqfs_write_table as seen by the id / fragment / export table writers: fails, or writes the table and reports the start of its location list",
+    "array_append / array_set_capacity (lib/util/src/array.c): fail and leave the array alone, or append in place / provide at least the requested capacity keeping the old elements",
+    "alloc_flex / alloc_array / calloc: NULL or zeroed memory of the requested size; memcpy/memset/strlen: libc contracts (bounds asserted at every call, effect = recorded arguments for copies > 32 bytes)",
+    "fstree_resolve_hard_links (post_dense.c): fails, or leaves every hard link node with its target_node set to a non-directory, non-link node",
+    "get_conseq_entry_count as seen by sqfs_dir_writer_end (dir_end.c): its contract proved in dir_run.c",
+]
+ASSUMPTIONS = [
+    "machine model: LP64 little endian; unsigned -> signed conversions are modular (gcc): get_conseq_entry_count and sqfs_dir_writer_end rely on it for the inode number delta (conversion check off there, the value obligations replace it)",
+    "get_conseq_entry_count: per-entry facts (same_block, delta_fits) for every list are proved only in the thorough tier (dir_run:n257_wit, 5 min SAT); one_block / maximal only for lists <= 16 entries",
+    "dir_end / dir_inode: <= 3 entries / headers, names <= 4 bytes; inode references < 2^48, directory table < 4 GiB, listing < 4 GiB (field widths; sqfs_dir_writer_create_inode would truncate a start block >= 2^32 silently although it selects the extended layout for it - latent, not reachable below a 4 GiB directory table)",
+    "inodex_count is a 16 bit field: directories with more than 65535 headers are outside the bounded harness",
+    "fragment count < 2^28 in frag_write (fragment_entry_count and the index returned by sqfs_frag_table_append are 32 bit; >= 2^32 fragments would truncate, not reachable below 2^32 fragment blocks)",
+    "id table: the 65535 bound is the invariant checked at sqfs_id_table_id_to_index (C03.ids.count_fits) and assumed at sqfs_id_table_write",
+    "xattr id table: per-set pair count and byte size fit 32 bit; the number of sets is one of {1,2,511,512,513,1024,1025}; on-disk size of an emitted block is 3 or 8194 (concrete cases)",
+    "padding: device block size is a power of two 2^0..2^32 (plus 3000 for images < 16 MiB); super.bytes_used = file size at super block time is C14.finish.bytes_used; order of the table stages and 'tables inside bytes_used' are C14.finish.* (not repeated here)",
+    "post_process: all tree shapes up to 5 nodes and every 16th shape with 6 nodes, at most 2 hard links, targets = regular files; tree depth/width beyond that are covered by no run",
+    "compressor option fields within the ranges their create functions validate; codec output bytes are not modelled",
+    "not covered: superblock field consistency beyond id/fragment/export fields (C14), data block contiguity (C02/C14), sortedness of directory listings (C11 insert_sorted), write_inode byte layout (C01), validity as judged by the Linux kernel",
+]
+EXPLANATION = ("each on-disk invariant of the statement is attached to the function that establishes it: "
+               "run limits and header/entry encoding (dir_writer.c), metadata block header (meta_writer.c), "
+               "basic/extended inode choice without truncation (inode.c), id/fragment/export/xattr table "
+               "sizes and references (id_table.c, frag_table.c, write_table.c, xattr_writer_flush.c), "
+               "'compressed result not larger than the input' for the five back ends (comp/*.c), padding "
+               "(finish.c) and dense inode numbering (post_process.c). Loop-free functions and loops closed "
+               "by loop contracts / unwound to a code constant are proved for the full value domain; "
+               "list- and tree-shaped inputs are enumerated shapes with symbolic values (bounded).")
+
 import itertools
 
 
@@ -74,6 +120,10 @@ HARNESSES = [
     dict(name="meta_flush", file="meta_flush.c", label="proved", fp=FP,
          unwind=34, malloc_fail=True, timeout=170,
          cases=[dict(id="all", tier="quick")]),
+    dict(name="meta_append", file="meta_append.c", label="proved", fp=FP,
+         loops=["sqfs_meta_writer_append"], timeout=300, unwind=34,
+         pre_instrument_flags=["--replace-calls", "sqfs_meta_writer_flush:stub_flush"],
+         cases=[dict(id="all", tier="quick")]),
     dict(name="inode_kind", file="inode_kind.c", label="proved", unwind=70,
          nochecks=["--conversion-check"], timeout=120,
          native_sources=["lib/util/src/alloc.c"],
@@ -96,7 +146,7 @@ HARNESSES = [
          include_dirs=["lib/sqfs/src/xattr"], object_bits=12, weight=8,
          cases=[dict(id="n%d_g%d" % (n, g), defines={"NSETS": n, "GROW": g},
                      unwind=n + 2,
-                     tier="quick" if (n, g) in ((1, 3), (512, 8194), (513, 3)) else "thorough")
+                     tier="quick" if (n, g) in ((1, 3), (512, 8194), (2, 3)) else "thorough")
                 for n in (1, 2, 511, 512, 513, 1024, 1025) for g in (3, 8194)]),
     dict(name="dir_add", file="dir_add.c", label="proved", timeout=170, unwind=4,
          cases=[dict(id="all", tier="quick")]),
